@@ -63,7 +63,6 @@ ASSUMPTIONS = [
     "their caches are hidden state (C03 / C16), not arguments",
     "reset_origin(return_image=True) is documented as an in-place reset that additionally returns a copy: only attributes other than "
     "'origin' of the receiver are required to be unchanged",
-    "LinearModel / CombinedModel-with-LinearModel on Images is C14's subject (Image + float is undefined) and is exercised on arrays only",
     "results that are not extended: non-image / non-array results, ScalarImages whose array rank contradicts their flags (comparison of "
     "non-scalar images), optical images in a colour space the OpticalImage constructor refuses (HLS, LAB)",
     "a transition that violated is not extended (its pool is no longer the base pool); every other transition starts from a pool whose "
@@ -1169,7 +1168,8 @@ def _rpatches2(c, x):
 
 
 # ---- models -------------------------------------------------------------------------------
-for _nm, _m in (("ScalingModel(2)", "SCA2"), ("ScalingModel(1)", "SCA1"), ("ClipModel", "CLIP"), ("StaticThresholdModel", "THR"), ("CombinedModel", "COMBI")):
+for _nm, _m in (("LinearModel", "LIN"), ("ScalingModel(2)", "SCA2"), ("ScalingModel(1)", "SCA1"), ("ClipModel", "CLIP"), ("StaticThresholdModel", "THR"),
+                ("CombinedModel", "COMBI"), ("CombinedModel(linear)", "COMBA")):
 
     def _mk(_nm=_nm, _m=_m):
         @op(f"model/{_nm}/image", group=f"model-{_nm}")
